@@ -45,8 +45,8 @@ def own():
         s, v = l.rstrip('\n').split('\t')
         m[s] = v
     sym = {'caught': '**X**', 'caught-nfif': 'x', 'quiet': '·', 'does-not-apply': 'n/a'}
-    rounds = ['', 'b', 'c', 'd', 'e', 'f']
-    rows = ['| property | round 1 | round 2 | round 3 | round 4 | round 5 | round 6 |', '|---|---|---|---|---|---|---|']
+    rounds = ['', 'b', 'c', 'd', 'e', 'f', 'g']
+    rows = ['| property | round 1 | round 2 | round 3 | round 4 | round 5 | round 6 | round 7 |', '|---|---|---|---|---|---|---|---|']
     for i in range(1, 21):
         pid = 'C%02d' % i
         rows.append('| %s | ' % pid + ' | '.join(sym.get(m.get(pid + r, ''), 'withdrawn' if (pid + r) in ('C01b', 'C14c', 'C08b') else ' ') for r in rounds) + ' |')
